@@ -520,7 +520,7 @@ def main():
                            "set_default_*(override dict) and reset_state() are outside the statement and not exercised"])
     run.require("state_entries", "chemostat_entries", "tagged_getter_calls", "setter_calls", "frame_checks", "regen_checks")
     thorough = tier() == "thorough"
-    n_total = 10000 if thorough else 400
+    n_total = 10000 if thorough else 1200
     cases = [{"seed": seed(), "idx": i} for i in range(n_total)]
     res = pmap("vf.checks.c13:run_case", cases, cpu_budget=120)
     for cs, r_ in zip(cases, res):
